@@ -270,6 +270,12 @@ func (s *Session) OpenStream() (*Stream, error) {
 	// Register the stream
 	stream := newStream(s, id)
 	s.streamLock.Lock()
+	if s.streams == nil {
+		// Close dropped the stream table after the IsClosed check above: inserting into it would panic
+		// (with streamLock held for ever)
+		s.streamLock.Unlock()
+		return nil, ErrSessionShutdown
+	}
 	if _, ok := s.streams[id]; ok {
 		s.streamLock.Unlock()
 		return nil, ErrStreamsExhausted
